@@ -5,8 +5,8 @@ T = "GeomV.C15."
 
 
 def pregen(check):
-    """T1 tie: regenerate lean/GeomV/C15/Gen.lean (similar, pointSimilar, pointsSimilar, ringSimilarFrom, ringSimilar and the
-    Point/MultiPoint/LineString/*Bounds methods) from the current source"""
+    """T1 tie: regenerate lean/GeomV/C15/Gen.lean (similar, pointSimilar, pointsSimilar, ringSimilarFrom, ringSimilar and all
+    eight Similar methods) from the current source"""
     spec = importlib.util.spec_from_file_location("c15_go2lean", os.path.join(vcheck.HARNESS, "cmd", "c15", "go2lean.py"))
     mod = importlib.util.module_from_spec(spec); spec.loader.exec_module(mod)
     out = os.path.join(vcheck.LEAN, "GeomV", "C15", "Gen.lean")
@@ -49,8 +49,8 @@ CFG = {
     "trusted_base": [
         "Lean 4.33.0 kernel; axioms of every theorem printed by #print axioms must be within {propext, Classical.choice, Quot.sound}",
         "model lean/GeomV/C15/Model.lean is tied to /repo/similar.go by the correspondence run (both argument orders of every generated pair, exact comparison of the boolean answers) on every check",
-        "IEEE-754: Go's float64 a-b is assumed to be a monotone, odd rounding that leaves representable numbers alone; under that assumption ProofsFloat.lean proves that the float comparison equals the exact one unless |a-b| lies strictly between e and its representable predecessor; generated coordinates/tolerances are dyadic (a-b exact) or keep |a-b| at least 10% away from e",
-        "harness/cmd/c15/go2lean.py (expression + simple-loop + single-case type-switch translator, ~300 lines) for the regenerated definitions of similar, pointSimilar, pointsSimilar, ringSimilarFrom, ringSimilar and the Point/MultiPoint/LineString/*Bounds methods (Gen.lean); exercised by the same correspondence run",
+        "IEEE-754: Go's float64 a-b is assumed to be roundTiesToEven of the exact difference (math.Abs and < exact); that roundTiesToEven (C02.rne, from C17's bit-level roundPos) is a monotone, odd rounding leaving the doubles alone is PROVED (C15_rne_rounding), and with it that the float comparison equals the exact one unless |a-b| lies strictly between e and its representable predecessor (C15_float64_lift); generated coordinates/tolerances are dyadic (a-b exact) or keep |a-b| at least 10% away from e",
+        "harness/cmd/c15/go2lean.py (expression + simple-loop + single-case type-switch translator + member-matching loop skeleton, ~470 lines) for the regenerated definitions of similar, pointSimilar, pointsSimilar, ringSimilarFrom, ringSimilar and all eight Similar methods (Gen.lean; loop combinators in GenLoop.lean); exercised by the same correspondence run",
         "harness/cmd/c15 + lean driver + lib/vcheck.py transport inputs faithfully",
     ],
     "assumptions": [
@@ -79,6 +79,10 @@ CFG = {
             "shared = prefix lists are re-slices of the other operand's backing array / same slice on both sides; nil for empty; in-place overwrite of an "
             "already-compared operand), four calls per layout (AB, BA, AB, BA) with a bit-for-bit comparison of both operands after every call. "
             "a vertex moved by exactly pred(tol) (T) and succ(tol) (F) with exact differences, tol 0.5/0.1/2^-30/3/2^30, in point, line, multi-point, bounds, ring. "
+            "tolerances far outside 2^-30..2^30: 2^-53, 2^-60, 2^-100, 2^-500, 2^-900, 2^60, 2^500, 2^900 (every 12th dyadic base, lattice scaled with tol) and "
+            "1e-16, 1e-19, 1e-30, 1e-200, 1e25 (a third of the decimal bases). reorderings documented for another type only: start vertex of a line / line of a "
+            "multi-line-string / multi-point rotated, on open and on EXACTLY closed point lists (lrotate:F, with same/combo/reverse/displace/vswap controls on the "
+            "closed bases), corners of a bounds exchanged (bswap:F). a bit-identical copy of a vertex inserted right after it (vdup:F), an EMPTY member inserted (insert:F). "
             "nil interface values (~340 'nilm' lines): nil operand, nil members of (nested) collections on either side, before/after matched and unmatched "
             "members, with equal and different counts: answers AND panics compared with the fault model simE. "
             "distinct = distinct input line; non-trivial = every class",
